@@ -5,7 +5,7 @@ reply.  Stages: banner, ehlo, helo, starttls, tls (the handshake itself), auth, 
 eod (SMTP) / eod<i> (LMTP, i = index among the accepted recipients), rset, quit.
 Outcomes: '2' success, '4' -> 451, '5' -> 550, '500' (EHLO: triggers HELO fallback), 'malformed'
 (a line that is no reply), 'badcode' (three digits outside 1xx-5xx), 'disconnect', 'stall' (never
-answer), ('trickle', dt) (one byte of the reply every dt seconds), ('delay', dt) (the normal reply, dt
+answer), '334-bad' (AUTH: a 334 challenge that is not base64), ('trickle', dt) (one byte of the reply every dt seconds), ('delay', dt) (the normal reply, dt
 seconds late), '251' (RCPT: accepted with 251), 'stall-after-334' (AUTH).
 The peer records what it positively accepted so that the oracle can compute the truth.
 """
@@ -120,6 +120,14 @@ class ScriptedPeer(object):
             return out
         elif out == 'badcode':
             self._send(b'999 code outside the defined classes\r\n')
+            return out
+        elif out == '334-extra':
+            self._send(b'334 bW9yZQ==\r\n')      # one more (well-formed) challenge than the mechanism has, then the verdict
+            self._readline()
+            self._send(self._format(code, [text]))
+            return '2'
+        elif out == '334-bad':
+            self._send(b'334 abc\r\n')           # a challenge that is not base64 (wrong padding)
             return out
         elif out == 'disconnect':
             self.sock.close()
